@@ -240,6 +240,30 @@ pub fn float_field_ok(text: &str, f: f64) -> Result<(), String> {
     }
 }
 
+/// Only the value field of the line is judged (C02's business when the rest of the line belongs to other properties):
+/// `None` if the name part in front of it is not the reference name (then the field cannot be located reliably and
+/// whoever owns the name part reports it).
+pub fn value_field_matches(e: &Expect, emitted: &str) -> Option<Result<(), String>> {
+    let head = format!("{}:", e.name);
+    let rest = emitted.strip_prefix(head.as_str())?;
+    let field = &rest[..rest.find('|')?];
+    let parts: Vec<&str> = field.split(':').collect();
+    if parts.len() != e.values.len() {
+        return Some(Err(format!("value field {:?} has {} element(s), {} supplied", crate::json::clip(field, 120), parts.len(), e.values.len())));
+    }
+    for (t, v) in parts.iter().zip(e.values.iter()) {
+        let r = match v {
+            Num::I(x) => if *t == dec_i64(*x) { Ok(()) } else { Err(format!("value {:?} is not the numeral of {}", t, x)) },
+            Num::U(x) => if *t == dec_u64(*x) { Ok(()) } else { Err(format!("value {:?} is not the numeral of {}", t, x)) },
+            Num::F(f) => float_field_ok(t, *f),
+        };
+        if r.is_err() {
+            return Some(r);
+        }
+    }
+    Some(Ok(()))
+}
+
 /// Emitted text must be the reference line byte for byte, except that a float field may be any
 /// numeral accepted by `float_field_ok`.
 pub fn matches_line(e: &Expect, emitted: &str) -> Result<(), String> {
